@@ -37,7 +37,11 @@ pub(crate) async fn resolve_container(
     collect_fields(&mut fields, schema, object, ctx, parent_value)?;
 
     let res = if !serial {
-        futures_util::future::try_join_all(fields).await?
+        // Wait for every field, then report the first error in document order.
+        futures_util::future::join_all(fields)
+            .await
+            .into_iter()
+            .collect::<ServerResult<Vec<_>>>()?
     } else {
         let mut results = Vec::with_capacity(fields.len());
         for field in fields {
@@ -518,7 +522,11 @@ async fn resolve_list<'a>(
             }
         });
     }
-    let values = futures_util::future::try_join_all(futures).await?;
+    // Wait for every item, then report the first error in index order.
+    let values = futures_util::future::join_all(futures)
+        .await
+        .into_iter()
+        .collect::<ServerResult<Vec<_>>>()?;
     Ok(Some(Value::List(values)))
 }
 
